@@ -10,11 +10,14 @@
     deadlock_free_for_code each_load_correct wf_at_quiescence acquisitions_come_from_programs
     acquisitions_in_program_order lru_invariant_under_every_schedule
     loader_invariant_under_every_schedule returned_templates_are_current
+    atomic_load_is_nested_load each_load_correct_nested nested_load_without_includes_is_load
+    nested_load_result
 -/
 import Genshi.Lemmas.ConcLoad
 import Genshi.Lemmas.ConcSerial
 import Genshi.Lemmas.ConcLru
 import Genshi.Lemmas.ConcInv
+import Genshi.Lemmas.ConcNested
 import Genshi.Lemmas.Lru
 import Genshi.Model.ConcLru
 import Genshi.Gen.Loader
@@ -112,6 +115,42 @@ theorem each_load_correct (c : CCfg) (ls0 : LState) (h0 : ls0.lock = 0) (progs :
   apply serial_flat
   intro p hp
   exact hflat p.1 p.2 ((minv_exec (minv_init ls0 progs) sched).log p hp)
+
+/-! ### programs with includes: the serial specification is the sequential `loadN` -/
+
+/-- One whole top-level load of the interleaving model, executed alone — with the loads its
+    callback performs, to any depth — is the sequential `loadN` (C15's `load` where the callback
+    re-enters `load` for every include while the lock is held). -/
+theorem atomic_load_is_nested_load (c : CCfg) (tid : Tid) (ls : LState) (comp : List (Tid × Req × Res))
+    (q : CReq) :
+    atomicLoad c tid ls comp q = ((loadN c ls q).1, comp ++ [(tid, q.r, (loadN c ls q).2)]) :=
+  atomicLoad_eq_loadN c tid ls comp q
+
+/-- `each_load_correct` without the restriction to programs without includes: for every number
+    of threads, every program (nested loads to any depth) and every schedule, whenever the lock
+    is free the shared state and the results of the completed loads are those of `loadN` applied
+    to the top-level requests one after the other in lock-acquisition order. -/
+theorem each_load_correct_nested (c : CCfg) (ls0 : LState) (h0 : ls0.lock = 0) (progs : List (List CReq))
+    (sched : List Tid) (hfree : (exec c (G.init ls0 progs) sched).owner = none) :
+    ((exec c (G.init ls0 progs) sched).ls, (exec c (G.init ls0 progs) sched).completed) =
+      seqLoadsN c ls0 [] (exec c (G.init ls0 progs) sched).acqLog := by
+  rw [linearizable_when_free c ls0 h0 progs sched hfree, serial_eq_seqLoadsN]
+
+/-- … where `loadN` of a request without includes is C15's `load` (so `each_load_correct` is
+    the special case), -/
+theorem nested_load_without_includes_is_load (c : CCfg) (ls ls' : LState) (r : Req) (key : Key) (res : Res)
+    (hk : resolve c.cfg.path.isEmpty r = some key)
+    (h : Loader.load c.cfg c.fs ls r = some (ls', res)) : loadN c ls (.mk r key []) = (ls', res) :=
+  loadN_flat c ls ls' r key res hk h
+
+/-- … and the includes do not change what the call returns: the result of a load with nested
+    loads is the result the same call gives without them (the template of the file found first
+    on the search path, parsed before the callback runs; or the same failure) — unless a nested
+    load raised, which propagates out of the callback. -/
+theorem nested_load_result (c : CCfg) (ls : LState) (r : Req) (key : Key) (children : List CReq) :
+    (loadN c ls (.mk r key children)).2 = (loadN c ls (.mk r key [])).2 ∨
+    (loadN c ls (.mk r key children)).2 = .err .callback :=
+  loadN_result c ls r key children
 
 /-- … hence C15's history invariant (bounded LRU cache of distinct keys, cached templates
     coherent with their files, fresh identities, lock free) holds whenever the lock is free —
@@ -249,6 +288,18 @@ example :
         [[.mk { base := 1 } ⟨none, false, 1⟩ []], [.mk { base := 1 } ⟨none, false, 1⟩ []]])
       [0, 1, 0, 1, 1, 0, 0, 1, 0, 0, 0, 0, 0, 0, 1, 1, 1, 1, 1, 1, 1, 1]).completed.map (fun p => (p.1, p.2.2)) =
     [(0, .ok ⟨0, ⟨0, false, 1⟩, 101, 0, 0, false⟩), (1, .ok ⟨0, ⟨0, false, 1⟩, 101, 0, 0, false⟩)] := by
+  decide
+
+-- a load whose callback loads an include: both cached, the include first (it is stored first)
+example : ((loadN (nestCfg true) (LState.init 2)
+      (.mk { base := 0 } ⟨none, false, 0⟩ [.mk { base := 1 } ⟨none, false, 1⟩ []])).1.cache.items.map (·.2.content),
+    (loadN (nestCfg true) (LState.init 2)
+      (.mk { base := 0 } ⟨none, false, 0⟩ [.mk { base := 1 } ⟨none, false, 1⟩ []])).2) =
+    ([100, 101], .ok ⟨0, ⟨0, false, 0⟩, 100, 0, 0, false⟩) := by
+  decide
+-- a failing include makes the including load fail, nothing of it is cached
+example : (loadN (nestCfg true) (LState.init 2)
+      (.mk { base := 0 } ⟨none, false, 0⟩ [.mk { base := 7 } ⟨none, false, 7⟩ []])).2 = .err .callback := by
   decide
 
 end Genshi.Props.C16
